@@ -171,6 +171,17 @@ def run(ck, fx, cg, tier):
             ok = len(fa) == 1 and fmt_pieces(fa[0]) == "{0}" and local_of(fa[0]["args"][0]) and local_of(fa[0]["args"][0])[0] == res
         ck.ob("R6.sinks", "parse writes exactly the serialized AST", ok, loc(pa), "one write!(sink, \"{}\", <serializer output>): %s" % ok)
         # what is parsed is the selected input
+    # output files are created/truncated: a shorter output over an older, longer file must not keep its tail
+    from . import shared
+    n_open = 0
+    for b in fx.hir:
+        if b["from_expansion"] or not (b["path"].startswith("NamedSink::") or b["path"] in (A.get("cli.parse"), A.get("cli.compile"))):
+            continue
+        for node, ok, how in shared.write_opens(fx, b):
+            n_open += 1
+            ck.ob("R6.sinks", "%s|output file is truncated on open" % b["path"], ok, loc(node),
+                  "opened with %s%s" % (how, "" if ok else " — an existing longer file keeps its stale tail, so the next stage reads a different AST / bytecode"))
+    ck.floor("R6.sinks", "output-file opens examined", n_open, 1)
     # ---------------------------------------------------------------- depth
     n_depth = 0
     for b in fx.hir:
